@@ -103,7 +103,7 @@ ExpectedRead(S, u, x) ==
                  /\ S.prog.ctxs[c].var = (IF x < 100 THEN x ELSE x - 100)
       ofTask(t) == {c \in DOMAIN S.ctx : S.ctx[c].owner = t /\ isOv(c)}
       firstWith == {i \in 1..Len(chain) : ofTask(chain[i]) # {}}
-  IN IF firstWith = {} THEN 0
+  IN IF firstWith = {} THEN (IF x < 100 THEN SvDefault(S.prog, x) ELSE 0)
      ELSE LET i == CHOOSE i \in firstWith : \A j \in firstWith : i <= j
               cs == ofTask(chain[i])
               c == CHOOSE c \in cs : \A d \in cs : S.ctx[d].ord <= S.ctx[c].ord   \* entered last
@@ -189,6 +189,9 @@ Step(S, e) ==
               IF f \notin DOMAIN S.ts THEN {} ELSE
               LET T == S.ts[f] IN
               IfBad((T.thrown # 0 /\ NoFaultyCtx(P)) => (IsX(e.v) /\ e.u = T.thrown), "C02.prop") \cup
+              \* a task suspended at a yield is completed only by having the yield's outcome delivered into its code; the
+              \* exceptions are failures raised by its own contexts when the scheduler suspends / resumes it
+              IfBad(T.st = "waiting" => (IsX(e.v) /\ (e.v.n = 70000 \/ (e.v.n >= 90000 /\ e.v.n < 91000))), "C02.deliver") \cup
               (IF S.ref # <<>> THEN IfBad(e.v = S.ref[f], "C01.done") ELSE {}) \cup
               \* every context the task entered has been left, ending with a pause
               IfBad(\A c \in DOMAIN S.ctx : S.ctx[c].owner = f /\ S.ctx[c].ty \notin {"nonasync", "cleanup"} /\ NoFaultyCtx(P)
@@ -355,7 +358,7 @@ Step(S, e) ==
         IN [S |-> S1,
             bad |-> IfBad(e.a = 0, "C08.active") \cup
                     IfBad(e.k = 0, "C08.clean") \cup
-                    IfBad(\A i \in 1..Len(e.xs) : e.xs[i] = 0, "C07.restore") \cup
+                    IfBad(\A i \in 1..Len(e.xs) : e.xs[i] = SvDefault(P, i), "C07.restore") \cup
                     IfBad(~IsEscape(e.v) => (rootDone /\ S.fut[root].v = e.v), "C01.conv") \cup
                     \* an exception raised by value() is the root task's own failure (the same instance)
                     IfBad((IsX(e.v) /\ ~IsEscape(e.v)) => (rootDone /\ S.fut[root].u = e.u), "C02.prop") \cup
@@ -399,7 +402,8 @@ Step(S, e) ==
         [S |-> [S EXCEPT !.dreg = Upd(@, DedupKey(P, e.a), 0)], bad |-> {}]
 
     [] e.e = "Closed" -> [S |-> S, bad |-> {}]
-    [] e.e = "Hang"   -> [S |-> S, bad |-> {"C03.term"}]
+    [] e.e = "Hang"   -> [S |-> S, bad |-> {"C03.term"} \cup (IF S.ncall >= 2 THEN {"C08.fresh.hang"} ELSE {})]
+    [] e.e = "Swallowed" -> [S |-> S, bad |-> {}]       \* a context manager swallowed an exception (harness marker)
     [] OTHER -> [S |-> S, bad |-> {"H.unknown_event"}]
 
 ClauseProperty(c) == SubSeq(c, 1, 3)
